@@ -41,6 +41,7 @@ type Spec struct {
 	Trace           bool              `json:"trace"`
 	NoEnum          bool              `json:"no_enum"`
 	Goroutines      bool              `json:"goroutines"` // cooperative goroutine model (goroutines.go)
+	ConcreteTime    bool              `json:"concrete_time"`
 }
 
 func (s *Spec) knownTag(tag string) bool {
